@@ -1,6 +1,7 @@
 import MinterModel.QEval
 import MinterModel.QRlp
 import MinterModel.BancorQ
+import MinterModel.Events
 /-
   Dispatcher over every component's `Q` evaluator.  A component adds one line here.
 -/
@@ -11,5 +12,6 @@ def evalQ (fn : String) (args : List String) : Option String :=
   evalKernels fn (args.map intD)
   <|> Rlp.rlpEvalQ fn args
   <|> bancorEvalQ fn args
+  <|> eventsEvalQ fn args
 
 end Minter
